@@ -16,8 +16,8 @@ EXTENDS Integers, Sequences, FiniteSets, TLC, Json
 CONSTANTS Property
 Trace == ndJsonDeserialize("trace.ndjson")
 
-VARIABLES l, scen, viol, dir, ref, shape
-vars == <<l, scen, viol, dir, ref, shape>>
+VARIABLES l, scen, viol, dir, ref, shape, ref2
+vars == <<l, scen, viol, dir, ref, shape, ref2>>
 
 Ev == Trace[l]
 Is(e) == l <= Len(Trace) /\ Trace[l].ev = e
@@ -27,12 +27,12 @@ If(c, name) == IF c THEN {name} ELSE {}
 VerdictOf == [ C16 |-> {"partial_file_visible", "tmp_name_picked_up", "reference_not_saved", "not_saved", "save_differs_from_reference"} ]
 Verdicts == IF Property = "ALL" THEN UNION { VerdictOf[p] : p \in DOMAIN VerdictOf } ELSE VerdictOf[Property]
 
-Init == /\ l = 1 /\ scen = [id |-> ""] /\ viol = {} /\ dir = [p \in {} |-> 0] /\ ref = "" /\ shape = "mkdir"
+Init == /\ l = 1 /\ scen = [id |-> ""] /\ viol = {} /\ dir = [p \in {} |-> 0] /\ ref = "" /\ shape = "mkdir" /\ ref2 = ""
 
-ScenBegin == /\ Is("scen.begin") /\ Adv /\ scen' = Ev /\ viol' = {} /\ dir' = [p \in {} |-> 0] /\ ref' = "" /\ shape' = "mkdir"
+ScenBegin == /\ Is("scen.begin") /\ Adv /\ scen' = Ev /\ viol' = {} /\ dir' = [p \in {} |-> 0] /\ ref' = "" /\ shape' = "mkdir" /\ ref2' = ""
 ScenEnd == /\ Is("scen.end") /\ Adv
            /\ IF viol \cap Verdicts = {} THEN TRUE ELSE PrintT(<<"VIOLATED", scen.id, viol \cap Verdicts, l>>)
-           /\ UNCHANGED <<scen, viol, dir, ref, shape>>
+           /\ UNCHANGED <<scen, viol, dir, ref, shape, ref2>>
 
 \* ---- strace mode -----------------------------------------------------------
 \* the invariant of FailFileFS on the model directory: picked-up names hold complete content
@@ -66,13 +66,13 @@ Sys ==
         /\ viol' = viol \cup If(Partial(d2), "partial_file_visible")
                         \cup If(NextShape(op) = "off-protocol", "protocol_shape")
         /\ shape' = NextShape(op)
-  /\ UNCHANGED <<scen, ref>>
+  /\ UNCHANGED <<scen, ref, ref2>>
 
 SysEnd ==
   /\ Is("sys.end") /\ Adv
   /\ viol' = viol \cup If(~\E p \in DOMAIN dir : dir[p].glob, "not_saved")
                   \cup If(\E p \in DOMAIN dir : ~dir[p].glob, "tmp_left_behind")
-  /\ UNCHANGED <<scen, dir, ref, shape>>
+  /\ UNCHANGED <<scen, dir, ref, shape, ref2>>
 
 \* ---- crash mode ------------------------------------------------------------
 Globbed(files) == { files[i] : i \in { j \in 1..Len(files) : files[j].glob } }
@@ -81,7 +81,7 @@ CrashRef ==
   /\ LET gs == Globbed(Ev.files) IN
      /\ viol' = viol \cup If(Cardinality(gs) # 1 \/ \E f \in gs : ~f.ok, "reference_not_saved")
      /\ ref' = IF gs = {} THEN "" ELSE (CHOOSE f \in gs : TRUE).ndigest
-  /\ UNCHANGED <<scen, dir, shape>>
+  /\ UNCHANGED <<scen, dir, shape, ref2>>
 
 CrashRun ==
   /\ Is("crash.run") /\ Adv
@@ -89,11 +89,25 @@ CrashRun ==
      viol' = viol \cup If(\E f \in gs : ~f.ok \/ f.ndigest # ref, "partial_file_visible")
                   \cup If(\E f \in gs : f.tmp, "tmp_name_picked_up")
                   \cup If(~Ev.killed /\ (Cardinality(gs) # 1 \/ \E f \in gs : f.ndigest # ref), "save_differs_from_reference")
-  /\ UNCHANGED <<scen, dir, ref, shape>>
+  /\ UNCHANGED <<scen, dir, ref, shape, ref2>>
 
-Handled == {"scen.begin", "scen.end", "sys", "sys.end", "crash.ref", "crash.run"}
-Other == /\ l <= Len(Trace) /\ Trace[l].ev \notin Handled /\ Adv /\ UNCHANGED <<scen, viol, dir, ref, shape>>
-Next == ScenBegin \/ ScenEnd \/ Sys \/ SysEnd \/ CrashRef \/ CrashRun \/ Other
+\* a later uninterrupted (smaller) save into the directory a killed save left behind: whatever is picked up afterwards is a
+\* complete file of one of the two saves -- leftovers of the killed run must not leak into the new file
+CrashRef2 ==
+  /\ Is("crash.ref2") /\ Adv
+  /\ LET gs == Globbed(Ev.files) IN ref2' = IF gs = {} THEN "" ELSE (CHOOSE f \in gs : TRUE).ndigest
+  /\ UNCHANGED <<scen, viol, dir, ref, shape>>
+CrashResave ==
+  /\ Is("crash.resave") /\ Adv
+  /\ LET gs == Globbed(Ev.files) IN
+     viol' = viol \cup If(\E f \in gs : ~f.ok \/ f.ndigest \notin {ref, ref2}, "partial_file_visible")
+                  \* (if the killed run had already completed its file, the later run replays that one and saves nothing new)
+                  \cup If(~\E f \in gs : f.ndigest \in {ref, ref2}, "save_differs_from_reference")
+  /\ UNCHANGED <<scen, dir, ref, shape, ref2>>
+
+Handled == {"scen.begin", "scen.end", "sys", "sys.end", "crash.ref", "crash.run", "crash.ref2", "crash.resave"}
+Other == /\ l <= Len(Trace) /\ Trace[l].ev \notin Handled /\ Adv /\ UNCHANGED <<scen, viol, dir, ref, shape, ref2>>
+Next == ScenBegin \/ ScenEnd \/ Sys \/ SysEnd \/ CrashRef \/ CrashRun \/ CrashRef2 \/ CrashResave \/ Other
 Spec == Init /\ [][Next]_vars
 
 HW == /\ TLCSet(1, IF l > TLCGet(1) THEN l ELSE TLCGet(1))
